@@ -539,6 +539,17 @@ func (e *Exec) runPath(fn *ssa.Function, prefix []int64) (res *PathResult) {
 				}
 				res.violations = append(res.violations, Violation{Label: "panic: " + x.msg, Kind: "panic",
 					Pos: x.pos, Vector: e.vector(model), Prefix: append([]int64(nil), e.prefix...)})
+			case hangPanic:
+				res.status = "hang"
+				res.why = x.where
+				var model []uint64
+				if e.sol.Check() == Sat {
+					model = e.sol.GetTermValues(e.vecTerms())
+				} else {
+					model = make([]uint64, len(e.vecTerms()))
+				}
+				res.violations = append(res.violations, Violation{Label: "loop exceeds its bound (no progress): " + x.where, Kind: "hang",
+					Pos: x.where, Vector: e.vector(model), Prefix: append([]int64(nil), e.prefix...)})
 			case unsupportedErr:
 				res.status = "unsupported"
 				res.why = x.msg
@@ -684,6 +695,9 @@ func (rs *runState) worker(e *Exec, fn *ssa.Function) {
 		case "panic":
 			r.Panics++
 			r.PanicWhere[pr.why]++
+		case "hang":
+			r.Panics++
+			r.PanicWhere["hang: "+pr.why]++
 		case "unwind":
 			r.Unwinds++
 			r.UnwindWhere[pr.why]++
